@@ -90,13 +90,20 @@ class Check:
                 elif f.get("status") == "fixed":
                     fixed[f["key"]] = f
         new, listed = [], []
+        def base(k):
+            # the release-configuration re-run of the thorough tier reports the same construct under a `rel:` prefix
+            return k[4:] if k.startswith("rel:") else k
         for v in self.violations:
-            if v["key"] in known:
+            if base(v["key"]) in known:
                 listed.append(v)
             else:
                 new.append(v)
+        printed = set()
         for v in listed:
-            print("KNOWN-FINDING: property=%s %s [%s] at %s" % (self.prop, known[v["key"]].get("what", v["msg"]), v["key"], v["site"]))
+            if base(v["key"]) in printed:
+                continue
+            printed.add(base(v["key"]))
+            print("KNOWN-FINDING: property=%s %s [%s] at %s" % (self.prop, known[base(v["key"])].get("what", v["msg"]), base(v["key"]), v["site"]))
         os.makedirs(EVID, exist_ok=True)
         replay = os.path.join(EVID, "%s.violations.json" % self.prop)
         if new:
